@@ -172,6 +172,7 @@ class HyperPrimitive(symbolic.Object, HyperValue):
     new_value = object.__new__(self.__class__)
     new_value.__init__(   # pylint: disable=unexpected-keyword-arg
         allow_partial=self._allow_partial, sealed=self._sealed, **kwargs)
+    new_value.set_accessor_writable(self.accessor_writable)
     return new_value
 
 
